@@ -56,8 +56,9 @@ static void stampNew() {   // give files created since the last step the virtual
     for (const QFileInfo &fi : QDir(dir).entryInfoList(QDir::Files)) {
         std::string n = fi.fileName().toStdString(); long long sz = fi.size();
         bool active = fi.fileName() == (suffix.isEmpty() ? base : base + "." + suffix);
-        if (active || !stamped.count(n)) {
-            if (active && stamped.count(n) && stamped[n] == sz) continue;     // untouched
+        // a file whose timestamp is REAL time (the virtual clock runs in 2030) was created or written since the last step
+        const bool realStamp = fi.lastModified().toMSecsSinceEpoch() < 1890000000000LL;
+        if (realStamp || !stamped.count(n)) {
             long long t = g_now_ms - (g_now_ms % gran_ms); struct timespec ts[2] = {{t / 1000, (t % 1000) * 1000000}, {t / 1000, (t % 1000) * 1000000}};
             utimensat(AT_FDCWD, fi.absoluteFilePath().toLocal8Bit().constData(), ts, 0); stamped[n] = sz; }
     }
